@@ -353,14 +353,18 @@ def c_literal_bytes(body):
                 j += 1
             if j == i + 1:
                 return None
-            out.append(int(body[i + 1:j], 16) & 0xff)
+            if int(body[i + 1:j], 16) > 0xff:
+                return None         # a hex escape has no length limit: followed by a hex digit it is out of range (an error in clang)
+            out.append(int(body[i + 1:j], 16))
             i = j
         else:
             return None
     return bytes(out)
 
 
-NASTY = ['plain', 'quo"te', 'back\\slash', 'new\nline', 'tab\tq"\\', 'pct%s%d', 'utf\xc3\xa9']
+# names with characters that need escaping in a C string literal - also directly followed by characters that could continue an escape
+# sequence (hex digits after a byte >= 0x80 or a control character, octal digits, a question mark)
+NASTY = ['plain', 'quo"te', 'back\\slash', 'new\nline', 'tab\tq"\\', 'pct%s%d', 'utf\xc3\xa9', 'n\xc3\xa9e', '\x01' + '1f', '\x7fF0', 'a\xffe9', 'q??/z', '\x1b[0m7']
 
 
 def check_string_positions(chk, tus):
